@@ -343,7 +343,41 @@ class MHistory:
         t_hi = self.clock.peek()
         d.ops.append(('cycle',))
         self.after_cycle(pre, t_lo, t_hi, 'reschedule')
+        if 'C03' in self.props and 'C03' not in self.dead:
+            self.reboot_requests()
         return True
+
+    def reboot_requests(self):
+        """The periodic task of the service loop that asks servers past their reboot time to reboot (Master.check_reboot):
+        a server that is not yet due by the master's own record is not asked to reboot while an instance on it holds a
+        lease that has not ended ('not due for reboot before the lease ends')."""
+        d, ctx = self.d, self.ctx
+        try:
+            before = set(d.srv.children(d.z.REBOOTS))
+        except Exception:   # noqa  (no /reboots node yet)
+            before = set()
+        d.master.check_reboot()
+        try:
+            after = set(d.srv.children(d.z.REBOOTS))
+        except Exception:   # noqa
+            after = set()
+        now = self.clock.peek()
+        for s in sorted(after - before):
+            ctx.count('reboot_requests_seen')
+            srv = d.master.servers.get(s)
+            if srv is None:
+                continue
+            leased = sorted(n for n, a in srv.apps.items() if a.lease and a.placement_expiry and a.placement_expiry > now)
+            if leased:
+                ctx.count('reboot_requests_for_a_server_hosting_an_unexpired_lease')
+            if leased and now <= srv.valid_until:
+                self.dead.add('C03')
+                ctx.violation('reboot-requested-before-lease-ends',
+                              '%s was asked to reboot at t=%.3f, before its reboot time %.3f, while %s hold leases that end later' % (
+                                  s, now, srv.valid_until, leased[:3]),
+                              case=dict(ops=d.ops[-40:], cycle=self.cycles))
+            # the node reboots: the request is consumed
+            d.zkutils.ensure_deleted(d.admin, d.z.path.reboot(s))
 
     def after_cycle(self, pre, t_lo, t_hi, when, startup=False):
         d, ctx = self.d, self.ctx
